@@ -101,7 +101,11 @@ def run(ctx):
         loops = [s for s in A.walk_stmts(f.node.body) if isinstance(s, ast.For)]
         ok = bool(loops) and [A.norm(e) for e in loops[0].target.elts] == unpack
         ctx.ob("C25.D4-linspace-binding", cname(f, None, f"arguments unpacked as {unpack}"), ok, "" if ok else "argument order changed", where=where(f, f.node))
-        ok = bool(loops) and any(A.norm(x) == "c = cycler(motor, steps)" for x in loops[0].body) and any(A.norm(x) == "cyclers.append(c)" for x in loops[0].body)
+        apps = [c for x in (loops[0].body if loops else []) for c in A.calls_in(x) if A.call_name(c) == "cyclers.append" and len(c.args) == 1]
+        ok = False
+        if len(apps) == 1 and len(ls) == 1:
+            v = q.expand(f.node, apps[0].args[0])
+            ok = isinstance(v, ast.Call) and A.call_name(v) == "cycler" and len(v.args) == 2 and A.norm(v.args[0]) == "motor" and A.norm(v.args[1]) == A.norm(ls[0])
         ctx.ob("C25.D4-linspace-binding", cname(f, None, "one cycler per motor over its own steps, in argument order"), ok, "" if ok else "cycler construction changed", where=where(f, f.node))
     f = repo.func(PT, "outer_product")
     ok = any(isinstance(s, ast.Return) and A.norm(s.value) == "snake_cyclers(cyclers, snaking)" for s in f.node.body) and any(A.norm(x) == "snaking.append(snake)" for x in A.walk_stmts(f.node.body))
